@@ -19,6 +19,7 @@ import (
 	"go.6river.tech/mmmbbb/actions"
 	"go.6river.tech/mmmbbb/ent"
 	"go.6river.tech/mmmbbb/ent/delivery"
+	"go.6river.tech/mmmbbb/services"
 )
 
 type pushBody struct {
@@ -409,6 +410,7 @@ func TestC19(t *testing.T) {
 		}
 		// long climb: batches of simultaneous fast successes
 		// until the window has had the chance to pass its cap
+		_ = 0
 		if len(st.Violations) == 0 {
 			w2 := *w
 			n := 20000
@@ -490,9 +492,229 @@ func TestC19(t *testing.T) {
 		writeFile(p, corrBroken)
 		st.Violate(Violation{What: "correspondence with the regenerated status table broken: " + corrBroken, Replay: p, FoundInput: false, Sig: "correspondence"})
 	}
+	// mixed batches answered together: refusals come again, slow successes are acknowledged (the branch
+	// that drains the queues is chosen by a select: several rounds)
+	if len(st.Violations) == 0 {
+		rounds := 3
+		if thorough {
+			rounds = 12
+		}
+		for i := 0; i < rounds; i++ {
+			what := pushBatchOutcome(t, Seed()+int64(i), 3, 3)
+			st.Count("push_batch_rounds", 1)
+			if what != "" && !strings.HasPrefix(what, "setup:") {
+				violate("batch-outcome", what, fmt.Sprintf("3 x 500 + 3 x slow 200, round %d", i))
+				break
+			}
+		}
+	}
+	// the push service restarts a pusher that died
+	if len(st.Violations) == 0 {
+		st.Count("push_service_restart_cases", 1)
+		if what := pushServiceRestarts(t, Seed()); what != "" && !strings.HasPrefix(what, "setup:") {
+			violate("pusher-not-restarted", what, "push service; publish m1; endpoint answers 500 and the next SQL statement of the pusher fails; publish m2; 200 s")
+		} else if what != "" {
+			st.Count("push_service_setup_failed", 1)
+		}
+	}
 	st.Set("evaluations", len(codes)+st.Get("retries_checked")+st.Get("burst_served")+st.Get("climb_served"))
 	st.Set("traces_validated_against_impl", len(codes)-disagreements)
 	st.Set("rule", "the real HttpPushStreamer under testing/synctest with an in-memory RoundTripper scripted per request: one message per final status code (quick: 22 codes incl. transport error; thorough: every code 200-599 and 100-103), fast and slow answers, retry after back-off, then a 40-message burst; distinct = distinct status codes")
 	st.Sample(map[string]interface{}{"batches": batches, "window_trajectory": trajectory})
 	st.Summary = fmt.Sprintf("codes=%d retries=%d burst=%d disagreements=%d", len(codes), st.Get("retries_checked"), st.Get("burst_served"), disagreements)
+}
+
+// pushBatchOutcome: a push subscription whose window has opened; `nFail` pushes are answered 500 and
+// `nSlow` pushes are answered 200 after more than a second, all at the same instant.  Afterwards every
+// message answered 500 must be pushed again (and is then accepted), and every message answered 200 must
+// be acknowledged and never pushed again.  Returns what went wrong ("" = nothing).
+func pushBatchOutcome(t *testing.T, seed int64, nFail, nSlow int) (what string) {
+	synctest.Test(t, func(t *testing.T) {
+		w := NewWorld(t, seed)
+		defer w.Close()
+		w.Exec(Op{K: "create_topic", Topic: "t"})
+		w.Exec(Op{K: "create_sub", Sub: "push", Cfg: &SubCfg{Topic: "t", TTL: 24 * 3600 * Sec, MTTL: 3600 * Sec, MinB: Sec, MaxB: 2 * Sec, Push: "http://push.test/x"}})
+		sub, err := w.Client.Subscription.Query().Only(qctx)
+		if err != nil {
+			t.Fatal(err)
+		}
+		rt := &scriptedRT{reqs: make(chan *pushReq)}
+		ctx, cancel := context.WithCancel(context.Background())
+		defer cancel()
+		pusher := actions.NewHttpPusher(sub.Name, sub.ID, "http://push.test/x", &http.Client{Transport: rt}, w.Client)
+		done := make(chan error, 1)
+		go func() { done <- pusher.Go(ctx) }()
+		synctest.Wait()
+		next := func() *pushReq {
+			synctest.Wait()
+			select {
+			case r := <-rt.reqs:
+				return r
+			default:
+				return nil
+			}
+		}
+		w2 := *w
+		publish := func(from, n int) {
+			var msgs []MsgSpec
+			for i := 0; i < n; i++ {
+				msgs = append(msgs, MsgSpec{N: from + i})
+			}
+			w2.execInner(Op{K: "publish", Topic: "t", Msgs: msgs}, &Result{T: w.Now()})
+		}
+		// open the window: fast successes
+		need := nFail + nSlow
+		publish(0, 3*need+6)
+		served := 0
+		for tries := 0; served < 3*need+6 && tries < 400; tries++ {
+			r := next()
+			if r == nil {
+				time.Sleep(200 * time.Millisecond)
+				continue
+			}
+			r.respond <- pushResp{code: 204}
+			served++
+		}
+		synctest.Wait()
+		if wdw := pusher.CurrentFlowControl().MaxMessages; wdw < need {
+			what = fmt.Sprintf("setup: the window only opened to %d after %d fast successes", wdw, served)
+			return
+		}
+		// the batch: held until all of them are in flight, then answered together
+		publish(1000, need)
+		var held []*pushReq
+		for tries := 0; len(held) < need && tries < 100; tries++ {
+			r := next()
+			if r == nil {
+				time.Sleep(200 * time.Millisecond)
+				continue
+			}
+			held = append(held, r)
+		}
+		if len(held) < need {
+			what = fmt.Sprintf("setup: only %d of %d pushes in flight", len(held), need)
+			return
+		}
+		failed, slow := map[string]bool{}, map[string]bool{}
+		for i, r := range held {
+			if i < nFail {
+				failed[r.body.Message.MessageID] = true
+				r.respond <- pushResp{code: 500, delay: 1100 * time.Millisecond}
+			} else {
+				slow[r.body.Message.MessageID] = true
+				r.respond <- pushResp{code: 200, delay: 1100 * time.Millisecond}
+			}
+		}
+		time.Sleep(1200 * time.Millisecond)
+		synctest.Wait()
+		again := map[string]int{}
+		for tries := 0; tries < 120; tries++ {
+			r := next()
+			if r == nil {
+				time.Sleep(500 * time.Millisecond)
+				continue
+			}
+			again[r.body.Message.MessageID]++
+			r.respond <- pushResp{code: 204}
+		}
+		synctest.Wait()
+		for id := range failed {
+			if again[id] == 0 {
+				what = fmt.Sprintf("%d pushes were answered 500 and %d were answered 200 (slowly) at the same instant; message %s, answered 500, was not pushed again within 60 s", nFail, nSlow, id)
+				return
+			}
+		}
+		for id := range slow {
+			if again[id] > 0 {
+				what = fmt.Sprintf("%d pushes were answered 500 and %d were answered 200 (slowly) at the same instant; message %s, answered 200, was pushed again", nFail, nSlow, id)
+				return
+			}
+			mid, _ := uuid.Parse(id)
+			if d, err := w.Client.Delivery.Query().Where(delivery.MessageID(mid)).Only(qctx); err == nil && d.CompletedAt == nil {
+				what = fmt.Sprintf("%d pushes were answered 500 and %d were answered 200 (slowly) at the same instant; message %s, answered 200, is still unacknowledged", nFail, nSlow, id)
+				return
+			}
+		}
+		cancel()
+		synctest.Wait()
+	})
+	return
+}
+
+// pushServiceRestarts: the push service (services/http-push.go) keeps a pusher running per push
+// subscription; a pusher that dies of a storage error is started again, and the messages it had not
+// got accepted are pushed after all.  Returns what went wrong ("" = nothing).
+func pushServiceRestarts(t *testing.T, seed int64) (what string) {
+	synctest.Test(t, func(t *testing.T) {
+		w := NewWorld(t, seed)
+		defer w.Close()
+		w.Exec(Op{K: "create_topic", Topic: "t"})
+		w.Exec(Op{K: "create_sub", Sub: "push", Cfg: &SubCfg{Topic: "t", TTL: 24 * 3600 * Sec, MTTL: 3600 * Sec, MinB: Sec, MaxB: 2 * Sec, Push: "http://push.test/x"}})
+		rt := &scriptedRT{reqs: make(chan *pushReq)}
+		oldT := http.DefaultTransport
+		http.DefaultTransport = rt
+		defer func() { http.DefaultTransport = oldT }()
+		w.Ctl.mu.Lock()
+		w.Ctl.tick = 0
+		w.Ctl.mu.Unlock()
+		ctx, cancel := context.WithCancel(WithLabel(context.Background(), "push"))
+		defer cancel()
+		svc := services.NewHttpPushServiceForVerif()
+		if err := svc.Initialize(ctx, w.Client); err != nil {
+			t.Fatal(err)
+		}
+		ready := make(chan struct{})
+		done := make(chan error, 1)
+		go func() { done <- svc.Start(ctx, ready) }()
+		synctest.Wait()
+		select {
+		case <-ready:
+		default:
+			what = "setup: the push service did not become ready"
+			return
+		}
+		next := func() *pushReq {
+			synctest.Wait()
+			select {
+			case r := <-rt.reqs:
+				return r
+			default:
+				return nil
+			}
+		}
+		w2 := *w
+		w2.execInner(Op{K: "publish", Topic: "t", Msgs: []MsgSpec{{N: 1}}}, &Result{T: w.Now()})
+		r1 := next()
+		if r1 == nil {
+			what = "setup: the first message was not pushed"
+			return
+		}
+		m1 := r1.body.Message.MessageID
+		// the endpoint refuses it, and the storage fails under the pusher while it records that
+		w.Ctl.Arm(1, 0, nil, "push")
+		r1.respond <- pushResp{code: 500}
+		synctest.Wait()
+		w.Ctl.Arm(0, 0, nil, "")
+		// a second message; then time for the retry back-off and for the service's own polling
+		w2.execInner(Op{K: "publish", Topic: "t", Msgs: []MsgSpec{{N: 2}}}, &Result{T: w.Now()})
+		got := map[string]int{}
+		for tries := 0; tries < 400; tries++ {
+			r := next()
+			if r == nil {
+				time.Sleep(500 * time.Millisecond)
+				continue
+			}
+			got[r.body.Message.MessageID]++
+			r.respond <- pushResp{code: 204}
+		}
+		synctest.Wait()
+		open, _ := w.Client.Delivery.Query().Where(delivery.CompletedAtIsNil()).Count(qctx)
+		if got[m1] == 0 || len(got) < 2 || open > 0 {
+			what = fmt.Sprintf("the pusher of a push subscription died of a storage error after its endpoint had answered 500; 200 s later the refused message was pushed again %d times, %d distinct messages were pushed in all (2 published since), %d deliveries are still unacknowledged: the push service did not start the pusher again", got[m1], len(got), open)
+		}
+		cancel()
+		synctest.Wait()
+		_ = svc.Cleanup(context.Background())
+	})
+	return
 }
